@@ -66,6 +66,7 @@ def detect(mid, checks, tier, in_repo):
     patch = os.path.join(dst, "patch.diff")
     out = {"id": mid, "tier": tier, "mode": "git apply in /repo" if in_repo else "scratch worktree via PYTHONPATH", "results": {}}
     env = dict(os.environ)
+    env["VERIF_EVIDENCE_DIR"] = tempfile.mkdtemp(prefix="aspire-mv-evidence-", dir="/tmp")
     wt = None
     if in_repo:
         r = sh(["git", "-C", "/repo", "apply", patch])
@@ -89,6 +90,7 @@ def detect(mid, checks, tier, in_repo):
             sh(["git", "-C", "/repo", "checkout", "--", "."])
         else:
             drop(wt)
+        shutil.rmtree(env["VERIF_EVIDENCE_DIR"], ignore_errors=True)
     p = os.path.join(dst, "detection.json")
     prev = json.load(open(p)) if os.path.exists(p) else {"runs": []}
     prev["runs"].append(out)
